@@ -97,7 +97,11 @@ def origin_of(exc: BaseException) -> str:
     root = repo_root() + os.sep
     last = "verif"
     while tb is not None:
-        fn = os.path.abspath(tb.tb_frame.f_code.co_filename)
+        raw = tb.tb_frame.f_code.co_filename
+        if raw.startswith("<"):  # <frozen importlib...>, <string>: belongs to neither side
+            tb = tb.tb_next
+            continue
+        fn = os.path.abspath(raw)
         if fn.startswith(root):
             last = "repo"
         elif fn.startswith(VERIF_ROOT + os.sep):
